@@ -218,10 +218,116 @@ def SpellsRoot (c : Cfg) (root : String) (m : Fields) (t : PTree) : Prop :=
   | some (.oneof ops), .obj ms => SpellsO c ops m ms
   | _, _ => False
 
+/-! # What a successfully decoded document stored (C03, "stores exactly the value the document
+denotes")
+
+`StoredRoot c root m t`: every non-null member of the document `t` — at every depth: nested
+objects, array elements, map values, oneof arms — is found in the message `m`, at the proto path
+of its property (array elements by position, map values by key), with exactly a value its token
+denotes (`scalarSpells`: a value `scalarReflectFromGo` maps the token to; enums: the number of the
+named option). A value protobuf does not store (the zero value of an implicit-presence field, an
+empty list or map) counts as stored when the path is unset (`storedAt`). Conversely **nothing
+else is stored**: a property of an object (at every depth) is set only if the document has a
+non-null member for it (`OnlyM`; oneofs with an arm member: `OnlyO`), a stored list has exactly
+one value per element and a stored map exactly the document's keys, in order. The content of an
+`Any` is not examined. The definitions recurse on the document only. -/
+
 /-- `(k, v)` is a member of the object body -/
 def isMember (k : Bytes) (v : PTree) : PMembers → Prop
   | .nil _ => False
   | .cons k' _ v' rest => (k' = k ∧ v' = v) ∨ isMember k v rest
+
+/-- the keys of a member list, in order -/
+def memberKeys : PMembers → List Bytes
+  | .nil _ => []
+  | .cons k _ _ rest => k :: memberKeys rest
+
+/-- the leaves a property owns in the message of its object: its own proto path, or — exposed
+oneof (empty path) — the paths of the members of the oneof -/
+def leavesOf (env : Env) (p : PropDef) : List PropDef :=
+  if p.path = [] then exposedOps env p else [p]
+
+/-- **nothing else is stored** (object): a property one of whose leaves is set has a non-null
+member -/
+def OnlyM (env : Env) (props : List PropDef) (fs : Fields) (ms : PMembers) : Prop :=
+  ∀ p ∈ props, (∃ q ∈ leavesOf env p, (getPath fs q.path).isSome = true) →
+    ∃ v, isMember p.jsonName v ms ∧ v ≠ .null
+
+/-- **nothing else is stored** (oneof with an arm member; a body that consists of `"!type"`
+members only selects the named arm with an empty value, which is not described here) -/
+def OnlyO (ops : List PropDef) (fs : Fields) (ms : PMembers) : Prop :=
+  oneofKeys ms ≠ [] →
+    ∀ q ∈ ops, (getPath fs q.path).isSome = true → ∃ v, isMember q.jsonName v ms ∧ v ≠ .null
+
+/-- the value is found at the property's path — or it is a value `Message.Set` does not keep (zero
+value with implicit presence, empty list / map) and the path is unset -/
+def storedAt (fs : Fields) (p : PropDef) (vv : PVal) : Prop :=
+  getPath fs p.path = some vv ∨
+    (((p.pres == .imp && vv.isZero) || vv.isEmptyColl) = true ∧ getPath fs p.path = none)
+
+mutual
+/-- the (non-null) tree `t`, read as a value of schema `fld`, is stored as `vv` -/
+def StoredV (c : Cfg) (fld : Field) (vv : PVal) : PTree → Prop
+  | .obj ms =>
+    match fld, vv with
+    | .object ref, .msg fs =>
+      match c.env.find ref with
+      | some (.object sub) => StoredM c sub fs ms ∧ OnlyM c.env sub fs ms
+      | _ => False
+    | .oneof ref, .msg fs =>
+      match c.env.find ref with
+      | some (.oneof ops) => StoredO c ops fs ms ∧ OnlyO ops fs ms
+      | _ => False
+    | .map item, .map kvs => StoredMap c item kvs ms ∧ kvs.map (·.1) = memberKeys ms
+    | .any _, _ => True
+    | _, _ => False
+  | .arr xs =>
+    match fld, vv with
+    | .array item, .list vs => StoredE c item vs xs
+    | _, _ => False
+  | t =>
+    match fld with
+    | .scalar k => scalarSpells c.O k vv t
+    | .enum ref =>
+      match t, c.env.find ref, vv with
+      | .str s _, some (.enum pfx opts), .enum n => enumOptionByName pfx opts s = some n
+      | _, _, _ => False
+    | _ => False
+/-- every non-null member of an object body is stored in `fs` at its property's path -/
+def StoredM (c : Cfg) (props : List PropDef) (fs : Fields) : PMembers → Prop
+  | .nil _ => True
+  | .cons k _ v rest =>
+    (v = .null ∨
+      (∃ p vv, findProp props k = some p ∧ p.path ≠ [] ∧ StoredV c p.field vv v ∧ storedAt fs p vv) ∨
+      (∃ p, findProp props k = some p ∧ p.path = [] ∧ StoredX c (exposedOps c.env p) fs v)) ∧
+      StoredM c props fs rest
+/-- the value of an exposed-oneof member: a oneof object over the *same* message -/
+def StoredX (c : Cfg) (ops : List PropDef) (fs : Fields) : PTree → Prop
+  | .obj ms' => StoredO c ops fs ms' ∧ OnlyO ops fs ms'
+  | _ => False
+/-- every non-null arm member of a oneof body is stored in `fs` (the `"!type"` member is framing) -/
+def StoredO (c : Cfg) (ops : List PropDef) (fs : Fields) : PMembers → Prop
+  | .nil _ => True
+  | .cons k _ v rest =>
+    (k = ascii "!type" ∨ v = .null ∨
+      ∃ p vv, findProp ops k = some p ∧ StoredV c p.field vv v ∧ storedAt fs p vv) ∧
+      StoredO c ops fs rest
+/-- the stored list holds one value per element, in order -/
+def StoredE (c : Cfg) (item : Field) (vs : List PVal) : PElems → Prop
+  | .nil _ => vs = []
+  | .cons t rest => ∃ v vs', vs = v :: vs' ∧ StoredV c item v t ∧ StoredE c item vs' rest
+/-- every member of a map body is stored under its key -/
+def StoredMap (c : Cfg) (item : Field) (kvs : List (Bytes × PVal)) : PMembers → Prop
+  | .nil _ => True
+  | .cons k _ t rest => (∃ v, mget k kvs = some v ∧ StoredV c item v t) ∧ StoredMap c item kvs rest
+end
+
+/-- the message `m` holds everything the document `t` says -/
+def StoredRoot (c : Cfg) (root : String) (m : Fields) (t : PTree) : Prop :=
+  match c.env.find root, t with
+  | some (.object props), .obj ms => StoredM c props m ms ∧ OnlyM c.env props m ms
+  | some (.oneof ops), .obj ms => StoredO c ops m ms ∧ OnlyO ops m ms
+  | _, _ => False
 
 /-- the values the elements of a scalar array denote, position by position -/
 def elemsDenote (O : Oracle) (k : ScalarKind) : List PVal → PElems → Prop
